@@ -15,6 +15,8 @@ import (
 
 type fsm struct {
 	peer *peer
+	// index of this fsm in peer.fsms, immutable
+	index int
 
 	// the bgp ID received in the latest open message
 	remoteID uint32
@@ -45,9 +47,10 @@ type fsm struct {
 	idleHoldTimer     *time.Timer
 }
 
-func newFSM(peer *peer, conn net.Conn) *fsm {
+func newFSM(peer *peer, index int, conn net.Conn) *fsm {
 	f := &fsm{
 		peer:    peer,
+		index:   index,
 		conn:    conn,
 		closeCh: make(chan struct{}),
 		doneCh:  make(chan struct{}),
